@@ -77,6 +77,9 @@ func newCatchEvent(wr *wiring, element *schema.CatchEvent) (evt *catchEvent, err
 
 func (evt *catchEvent) run(ctx context.Context, sender tracing.ISenderHandle) {
 	defer sender.Done()
+	// nobody drains the inbox any more: events are dropped instead of blocking
+	// their sender
+	defer evt.running.Store(false)
 
 	for {
 		select {
